@@ -188,6 +188,49 @@ def validate(events, workdir, tag, spec="Trace", heap="8g", timeout=10800):
     return summary, lines[1:]
 
 
+def read_lp_tokens(path, limit=400000):
+    """blank-separated tokens of an LP-format file the library wrote (plain, gzip or bzip2 by magic bytes), comments (backslash to end
+    of line) removed, starting at Minimize/Maximize (the optional Problem section is skipped); an Integer keyword with no
+    variable after it is dropped (the writer prints the keyword whenever the marker array exists).  Trusted lexer; None when the
+    file is missing or too large to be worth comparing."""
+    try:
+        with open(path, "rb") as f:
+            raw = f.read(limit + 1)
+        if len(raw) > limit:
+            return None
+        if raw[:2] == b"\x1f\x8b":
+            import gzip
+            raw = gzip.decompress(raw)
+        elif raw[:3] == b"BZh":
+            import bz2
+            raw = bz2.decompress(raw)
+    except (OSError, EOFError, ValueError):
+        return None
+    toks = []
+    for line in raw.decode("latin-1").split("\n"):
+        toks += line.split("\\", 1)[0].split()
+    for k, t in enumerate(toks):
+        if t in ("Minimize", "Maximize"):
+            toks = toks[k:]
+            break
+    else:
+        return None
+    if len(toks) >= 2 and toks[-2] == "Integer" and toks[-1] == "End":
+        del toks[-2]
+    return toks
+
+
+def add_lp_text(evs, workdir):
+    out = []
+    for e in evs:
+        out.append(e)
+        if e["call"] == "write_prob" and e.get("rval") == 0 and e.get("type") == "LP" and "objname" in e:
+            toks = read_lp_tokens(os.path.join(workdir, e["file"]))
+            if toks is not None and len(toks) <= 6000:
+                out.append(dict(call="lp_text", h=e["h"], file=e["file"], objname=e["objname"], tokens=toks))
+    return out
+
+
 def read_basis_file(path):
     """tokenise a basis file: list of {t, c, r} records between NAME and ENDATA (trusted lexer)"""
     out = []
